@@ -182,6 +182,9 @@ func (w *wrapped) Run() {
 	if w.verify {
 		stage(w.res, "verify")
 		w.inner.Verify()
+		if msg := fullReference(w.inner); msg != "" {
+			panic(msg)
+		}
 		w.res.mu.Lock()
 		w.res.verify = "pass"
 		w.res.mu.Unlock()
